@@ -636,9 +636,13 @@ impl<'env> Executor<'env> {
                     };
                 }
                 Instruction::PushDidNotIterate => {
-                    stack.push(Value::from(
-                        state.ctx.current_loop().unwrap().did_not_iterate(),
-                    ));
+                    let l = state.ctx.current_loop().unwrap();
+                    // a recursive invocation of the loop returns to its call
+                    // site from the following `PopLoopFrame`.  Nothing there
+                    // consumes the flag, so it must not stay on the stack.
+                    if l.current_recursion_jump.is_none() {
+                        stack.push(Value::from(l.did_not_iterate()));
+                    }
                 }
                 Instruction::Jump(jump_target) => {
                     pc = *jump_target;
